@@ -84,12 +84,12 @@ type CaseItem struct {
 type Stmt struct {
 	Kind  stmtKind
 	Line  int
-	Name  string   // block name / task name / disable target
-	Decls []*Decl  // local declarations of a block
-	Stmts []*Stmt  // block body
-	Cond  *Expr    // if/while/repeat/case selector/wait
-	Then  *Stmt    // if-then, loop body, delayed statement
-	Else  *Stmt    // else
+	Name  string  // block name / task name / disable target
+	Decls []*Decl // local declarations of a block
+	Stmts []*Stmt // block body
+	Cond  *Expr   // if/while/repeat/case selector/wait
+	Then  *Stmt   // if-then, loop body, delayed statement
+	Else  *Stmt   // else
 	Items []CaseItem
 	Op    string // case kind ("case","casez","casex"); assign: "=" or "<="; incdec op
 	LHS   *Expr
@@ -173,15 +173,15 @@ type DeclName struct {
 
 // Decl is a declaration (possibly of several names).
 type Decl struct {
-	Kind    declKind
-	Line    int
-	NetType string // "wire","reg","tri",... for ports the optional net/var type ("" if none)
-	Signed  bool
-	IsInt   bool // parameter integer / output integer
-	MSB     *Expr
-	LSB     *Expr
-	Names   []DeclName
-	Ansi    bool // declared in an ANSI port list
+	Kind        declKind
+	Line        int
+	NetType     string // "wire","reg","tri",... for ports the optional net/var type ("" if none)
+	Signed      bool
+	IsInt       bool // parameter integer / output integer
+	MSB         *Expr
+	LSB         *Expr
+	Names       []DeclName
+	Ansi        bool // declared in an ANSI port list
 	InParamPort bool
 }
 
@@ -223,12 +223,12 @@ type ParamConn struct {
 
 // Instance is one module instance.
 type Instance struct {
-	Module  string
-	Name    string
-	Line    int
-	Params  []ParamConn
-	Conns   []PortConn
-	Named   bool
+	Module   string
+	Name     string
+	Line     int
+	Params   []ParamConn
+	Conns    []PortConn
+	Named    bool
 	HasRange bool
 }
 
@@ -259,12 +259,12 @@ type Item struct {
 	Else  []*Item // generate-if else
 	Cond  *Expr   // genif / genfor condition
 	// genfor
-	GenVar   string
-	GenInit  *Expr
-	GenStepV string
-	GenStep  *Expr
-	What     string // iIgnored: description
-	AlwaysDelay bool // "always #d stmt"
+	GenVar      string
+	GenInit     *Expr
+	GenStepV    string
+	GenStep     *Expr
+	What        string // iIgnored: description
+	AlwaysDelay bool   // "always #d stmt"
 }
 
 // Module is a parsed module.
@@ -272,6 +272,7 @@ type Module struct {
 	Name     string
 	File     string
 	Line     int
+	EndLine  int      // line of endmodule
 	PortList []string // names in port-list order
 	PortLine map[string]int
 	Ansi     bool
